@@ -173,11 +173,11 @@ def kind_c(report, tier):
             except doc:
                 skipped.append(assignment)
                 continue
-            counter.n = 0
-            r = tm(**inputs)
-            if counter.n != 1:
-                report.undecide("entry probe did not observe the kernel call on valid arguments")
-                return
+            # the call with valid arguments, in a child process like every other call: it must reach the kernel exactly once
+            outcome0, entered0 = isolated_call(counter, "tensor_method", tm, evaluate, assignment, formats[a.target.name], inputs, doc)
+            if outcome0 != "returned" or entered0 != 1:
+                report.undecide(f"{assignment}: the call with valid arguments did not simply run the kernel (outcome {outcome0}, kernel entered {entered0} time(s)); its mutations are not judged")
+                continue
             for desc, kwargs in mutations(a, formats, inputs):
                 evals += 1
                 should_refuse = True
